@@ -23,7 +23,8 @@ import (
 // producer case := (1 cfg_topic preq) | (2 cfg_topic ereq) | (3 cfg_topic ((1 preq) | (2 ereq) ...)) a sequence on one instance
 //   preq := (0 topic msg) *SimpleProduceRequest | (1 topic msg) other ProduceRequest implementation | (2 k) wrong type
 //   ereq := (0 form recovery payload errk) | (1 k) wrong type
-//   payload := (0 json) | (1 0) unsupported type | (1 1 str) unsupported value | (1 2) failing Marshaler
+//   payload := (0 json) | (1 0 [v]) unsupported type | (1 1 str) unsupported value | (1 2 [v]) failing Marshaler
+//              v: which Go value (0 chan in a map, 1 func, 2 anonymous struct with tagged chan field; Marshaler error text 0 plain, 1 needing escapes)
 //   errk := (0 text) | (1 ctx errk) | (2 code msg info) | (3 code msg) | (4)      info := () | ((0 json)) | ((1))
 //   json := (0) | (1 b) | (2 n) | (3 (bytes)) | (4 (items)) | (5 (((key) v)...)) | (6) time | (7) invalid
 // obs := (-1) panic | (result_nil err ((topic value)...))   value := (bytes) for produce, json for reports
@@ -47,6 +48,13 @@ func (c customReq) Message() []byte { return c.m }
 type badMarshaler struct{}
 
 func (badMarshaler) MarshalJSON() ([]byte, error) { return nil, errors.New("scripted marshal failure") }
+
+// loudMarshaler fails with a text that needs escaping wherever it is put into JSON.
+type loudMarshaler struct{}
+
+func (loudMarshaler) MarshalJSON() ([]byte, error) {
+	return nil, errors.New("bad \"value\" at c:\\tmp\\x\nline 2\ttab \x01 {}")
+}
 
 // ---------- generator ----------
 var topicNames = []string{"t", "errors", "logs-1", "a.b_c", "T"}
@@ -206,11 +214,11 @@ func genProdOne(r *sx.Rng) sx.Tree {
 	var payload sx.Tree
 	switch r.Intn(10) {
 	case 0:
-		payload = sx.T(sx.L(1), sx.L(0))
+		payload = sx.T(sx.L(1), sx.L(0), sx.L(int64(r.Intn(3))))
 	case 1:
 		payload = sx.T(sx.L(1), sx.L(1), sx.Str(sx.Pick(r, "NaN", "+Inf", "-Inf")))
 	case 2:
-		payload = sx.T(sx.L(1), sx.L(2))
+		payload = sx.T(sx.L(1), sx.L(2), sx.L(int64(r.Intn(2))))
 	default:
 		payload = sx.T(sx.L(0), genJSON(r, 3))
 	}
@@ -369,8 +377,21 @@ func buildPayload(t sx.Tree) interface{} {
 	if t.At(0).Int() == 0 {
 		return jsonValue(t.At(1))
 	}
+	variant := int64(0)
+	if t.At(1).Int() != 1 && t.Len() == 3 {
+		variant = t.At(2).Int()
+	}
 	switch t.At(1).Int() {
 	case 0:
+		switch variant {
+		case 1:
+			return func() {}
+		case 2: // an anonymous struct type: %T of it contains quotes and backslashes
+			return struct {
+				C chan int `json:"c"`
+				S string   `json:"s,omitempty"`
+			}{C: make(chan int), S: "x"}
+		}
 		return map[string]interface{}{"c": make(chan int)}
 	case 1:
 		f := math.NaN()
@@ -381,6 +402,9 @@ func buildPayload(t sx.Tree) interface{} {
 			f = math.Inf(-1)
 		}
 		return []interface{}{1, f}
+	}
+	if variant == 1 {
+		return loudMarshaler{}
 	}
 	return badMarshaler{}
 }
